@@ -264,5 +264,22 @@ def history_episodes(run, sb, rng, tier):
                 sb.align("cur", n, minf, filt, am, rng.random() < 0.3, rng.random() < 0.3)
         sb.weed("cur", None, False, [500, 1000], "no-filter", False, False, False, out="probe_w")
         sb.delete("cur", [cur_names[0]], out="probe_d") if n > 1 else None
+        # observational equivalence with a FRESH file of the same logical content (C10): distance and map
+        t = sb.nk("cur")
+        if t is not None and t["rows"]:
+            sb.import_table("twin", t["k"], t["rc"], t["names"], t["rows"])
+            import os
+            ref = os.path.join(sb.dir, "twinref%d.fa" % sb.ep)
+            vlib.write_fasta(ref, samples[0] + samples[-1][:1], names=["r%d" % j for j in range(len(samples[0]) + 1)])
+            for cmd, args in (("distance", ["distance", "PATH", "--min-freq", "0.5"]),
+                              ("distance-ambig", ["distance", "PATH", "--allow-ambiguous"]),
+                              ("map", ["map", ref, "PATH", "--ambig-mask"]),
+                              ("map-vcf", ["map", ref, "PATH", "-f", "vcf", "--repeat-mask"])):
+                outs = []
+                for f in ("cur", "twin"):
+                    rc_, so_, se_ = vlib.ska_cli([sb.path(f) if a == "PATH" else a for a in args])
+                    outs.append((rc_, sorted(so_.decode().splitlines()) if cmd.startswith("distance") else so_.decode()))
+                sb.emit("twin", {"file": "cur", "cmd": cmd}, same=(outs[0] == outs[1]), rc=outs[0][0])
+                run.evaluations += 1
         if sum(1 for o in ops_done if o != "merge") >= 2 and any(o.endswith("-am") for o in ops_done):
             run.nontriv(["hist", k, rc, samples, ops_done, i])
